@@ -202,3 +202,54 @@ func ZZ_C14_statusFn() {
 	nondet.Reach("C14.status.promoted", newTemplate && w.ActiveReplicaSet == "foo-b")
 	nondet.Reach("C14.status.frozen", !canaryActive && !failed && frozen)
 }
+
+// ZZ_C14_sumsCountEveryListedReplicaSet: "current, ready and available are sums over replica sets" —
+// over every replica set of the ExtendedDaemonSet that exists, whatever it is going through: the
+// active one, a leftover one that still reports pods (rolling update in progress or paused), and the
+// latter possibly being deleted in the foreground (deletionTimestamp set, finalizer, still listed,
+// its pods still there).  Arbitrary small counters; no canary strategy.
+func ZZ_C14_sumsCountEveryListedReplicaSet() {
+	ds := zzEDS("ns", "foo", "B", nil)
+	c := fakeapi.New()
+	rsB := zzRS(ds, "B", "foo-b", nondet.Base().Add(-time.Hour))
+	rsA := zzRS(ds, "A", "foo-a", nondet.Base().Add(-24*time.Hour))
+	rsB.Status.Desired = nondet.Int32("active.desired", 0, 5)
+	rsB.Status.Current = nondet.Int32("active.current", 0, 5)
+	rsB.Status.Ready = nondet.Int32("active.ready", 0, 5)
+	rsB.Status.Available = nondet.Int32("active.available", 0, 5)
+	rsA.Status.Current = nondet.Int32("leftover.current", 0, 5)
+	rsA.Status.Ready = nondet.Int32("leftover.ready", 0, 5)
+	rsA.Status.Available = nondet.Int32("leftover.available", 0, 5)
+	if nondet.Bool("leftoverTerminating") {
+		t := metav1.NewTime(nondet.Base().Add(-10 * time.Second))
+		rsA.DeletionTimestamp = &t
+		rsA.Finalizers = []string{"foregroundDeletion"}
+	}
+	if nondet.Bool("rollingUpdatePaused") {
+		ds.Annotations[datadoghqv1alpha1.ExtendedDaemonSetRollingUpdatePausedAnnotationKey] = "true"
+	}
+	ds.Status.ActiveReplicaSet = "foo-b"
+	c.EDS = append(c.EDS, ds)
+	if nondet.Bool("leftoverListedFirst") {
+		c.ERS = append(c.ERS, rsA, rsB)
+	} else {
+		c.ERS = append(c.ERS, rsB, rsA)
+	}
+	_, err := zzReconcile(zzReconciler(c), "ns", "foo")
+	nondet.Assert("C14.sums.noerror", err == nil)
+	st := zzStoredEDS(c, "ns", "foo")
+	stillThere := false
+	for _, rs := range c.ERS {
+		if rs.Name == "foo-a" {
+			stillThere = true
+		}
+	}
+	if stillThere {
+		nondet.Assert("C14.sums.current", st.Status.Current == rsB.Status.Current+rsA.Status.Current)
+		nondet.Assert("C14.sums.ready", st.Status.Ready == rsB.Status.Ready+rsA.Status.Ready)
+		nondet.Assert("C14.sums.available", st.Status.Available == rsB.Status.Available+rsA.Status.Available)
+	}
+	nondet.Assert("C14.sums.desired-and-uptodate-from-the-active-one", st.Status.Desired == rsB.Status.Desired && st.Status.UpToDate == rsB.Status.Current)
+	nondet.Observe("current", int(st.Status.Current))
+	nondet.Reach("C14.sums.leftover-terminating-with-pods", stillThere && rsA.DeletionTimestamp != nil && rsA.Status.Current > 0)
+}
